@@ -172,6 +172,14 @@ func Observe(tag string, v ...any) {}
 // it has no effect.
 func FixedSchedule(on bool) {}
 
+// LastRegexpSource returns, under the engine, the source text of the last pattern handed to
+// regexp.Compile / MustCompile by the code under test (possibly symbolic); natively "".
+func LastRegexpSource() string { return "" }
+
+// LastRegexpSubject returns, under the engine, the last subject handed to MatchString together
+// with a symbolic pattern or subject; natively "".
+func LastRegexpSubject() string { return "" }
+
 // Symbolic reports whether the harness runs under the symbolic engine.
 func Symbolic() bool { return false }
 
